@@ -34,7 +34,7 @@ class Prop(PoolProp):
                "windpyutils/buffers.py"]
     quick_runs = 600
     real_module = "harness.realfmap"
-    real_scenarios = ("fmap_detached_generator", "fmap_small", "fmap_big_results", "fmap_none_and_falsy", "fmap_falsy_results", "fmap_exception_values", "fmap_equal_items",
+    real_scenarios = ("fmap_one_cpu_default_workers", "fmap_detached_generator", "fmap_small", "fmap_big_results", "fmap_none_and_falsy", "fmap_falsy_results", "fmap_exception_values", "fmap_equal_items",
                       "mulp_small", "mulp_big_results", "mulp_exception_values")
     real_scenarios_quick = real_scenarios  # a fraction of a second each
     thorough_runs = 3000
